@@ -274,8 +274,17 @@ func judge(c *Case, r *mon.Rec, req packet.Request, bad []byte, cuts []int, what
 	if len(seen) >= 4 {
 		w := specref.CRC(seen[:len(seen)-2])
 		if seen[len(seen)-2] == byte(w) && seen[len(seen)-1] == byte(w>>8) {
-			r.Cover("skipped", "consumed-prefix-is-crc-consistent")
-			return
+			cut := false
+			for _, e := range out.Events {
+				cut = cut || (e.Op == "read" && e.Truncated)
+			}
+			if !cut || out.Err != nil {
+				r.Cover("skipped", "consumed-prefix-is-crc-consistent")
+				return
+			}
+			// the rest of the damaged reply was there, in the same burst: it stayed unread only because the client's own
+			// receive buffer was full - the client looked at a buffer-sized window of the reply and called it intact
+			a["cut_by_receive_buffer"] = true
 		}
 	}
 	if out.Err == nil {
